@@ -2,7 +2,7 @@
    ExtrOcamlBasic only; nat, Z, positive, Q stay Coq datatypes. *)
 Require Extraction.
 Require Import ExtrOcamlBasic.
-From TV Require Import Model.IndexSets Model.GridState Model.RuleLocal Model.Selection Model.Hier Model.LocalGrid.
+From TV Require Import Model.IndexSets Model.GridState Model.RuleLocal Model.Selection Model.Hier Model.LocalGrid Model.LowerSets.
 Extraction Language OCaml.
 Set Extraction Optimize.
 Extraction "../ocaml/gen/core.ml"
@@ -11,4 +11,5 @@ Extraction "../ocaml/gen/core.ml"
   getNumPoints getMaxNumKids getMaxNumParents getParent getStepParent getKid getLevel
   getNode getSupport scaleDiffX scaleX evalRaw evalSupport diffSupport
   classic_candidates
-  surpluses evalAt hier_cert parent_complete by_level reach Bc.
+  surpluses evalAt hier_cert parent_complete by_level reach Bc
+  select_level limits_box_full within_limits growth_loop.
